@@ -465,6 +465,7 @@ class GuardTr:
         self.scope = scope
         self.is_ctor = is_ctor
         self.unsafe_seen = []
+        self.inline_depth = 0
 
     def call_safe(self, call, glob):
         f = ast.unparse(call.func)
@@ -512,6 +513,27 @@ class GuardTr:
                     if "__init__" in kk.__dict__:
                         return kk
         return None
+
+    def inline_guarded(self, call, glob):
+        """`self.m(args)` as a statement, where m is itself a guarded operation (calls a predicate,
+        reads the command word or raises Unsupported*): its body is inlined (one level) so that the
+        bits ITS guard reads appear in the program (e.g. Peripheral.__init__ -> set_bd_address)."""
+        f = call.func
+        if self.inline_depth > 0 or not (isinstance(f, ast.Attribute) and isinstance(f.value, ast.Name) and f.value.id == "self"):
+            return None
+        if f.attr.startswith("__") or Scope.pred_call(call):
+            return None
+        if any(not self.call_safe(c, glob) for a in list(call.args) + [kw.value for kw in call.keywords]
+               for c in ast.walk(a) if isinstance(c, ast.Call)):
+            return None
+        try:
+            mk, _p, _s, fn = resolve_method(self.scope.cls, f.attr)
+        except Unsupported:
+            return None
+        guarded = any(Scope.pred_call(x) for x in ast.walk(fn) if isinstance(x, ast.Call)) \
+            or any(isinstance(x, ast.Raise) and x.exc is not None and "Unsupported" in ast.unparse(x.exc) for x in ast.walk(fn)) \
+            or "get_domain_commands" in ast.unparse(fn)
+        return (mk, fn) if guarded else None
 
     def in_scope_connector(self, k):
         return self.is_connector(k) and k.__module__.startswith("whad.") and ".connector" in k.__module__ \
@@ -585,6 +607,18 @@ class GuardTr:
                     tx = any(not self.call_safe(c, glob) for a in list(call.args) + [kw.value for kw in call.keywords]
                              for c in ast.walk(a) if isinstance(c, ast.Call))
                     return ("call", tx, "%s.__init__" % bk.__name__, restg)
+                inl = self.inline_guarded(call, glob)
+                if inl is not None:
+                    mk, fn = inl
+                    restg = self.seq(rest, k, retk, defcls, glob, loc)
+                    self.inline_depth += 1
+                    try:
+                        return self.seq(strip_doc(fn.body), restg, lambda kind: restg, mk,
+                                        sys.modules[mk.__module__].__dict__, {})
+                    except Unsupported:
+                        pass        # fall back to an opaque, possibly transmitting call
+                    finally:
+                        self.inline_depth -= 1
             tx, nm = self.classify(st, glob)
             if tx:
                 self.unsafe_seen.append(nm)
@@ -714,6 +748,10 @@ def translate(repo=None, want_ops=()):
             item["supp"] = g_supp(g)
             item["size"] = g_size(g)
             item["transmitting_calls"] = sorted(set(tr.unsafe_seen))
+            a = fn.args
+            pos = a.args[1:]
+            item["opt_params"] = [x.arg for x in pos[len(pos) - len(a.defaults):]] + \
+                [x.arg for x, d in zip(a.kwonlyargs, a.kw_defaults) if d is not None]
         except Unsupported as e:
             item["error"] = str(e)
         except Exception as e:  # import errors etc. are translation failures too
